@@ -1,12 +1,22 @@
 import CryoCat.Drv.Proto
 import CryoCat.Model.C20
+import CryoCat.Gen.C20
 /-! C20 driver: executes `CryoCat.C20.measure` / `cands` / `check` (the definitions the theorems of
 `Props/C20` are about) at `Float` (IEEE binary64, like numpy). Floats travel as bit patterns. -/
 namespace CryoCat.Drv.C20
 open Lean CryoCat CryoCat.C20
 
-/-- `np.radians(deg)` = `deg * (π/180)`, then `tan` -/
-def tanOfDeg (deg : Float) : Float := Float.tan (deg * (3.141592653589793 / 180.0))
+/-- the run-time library at `Float`: `np.radians(deg)` = `deg * (π/180)`, libm `tan` / `cos` / `sin` -/
+def floatTrig : Trig Float :=
+  { radians := fun d => d * (3.141592653589793 / 180.0), tan := Float.tan, cos := Float.cos, sin := Float.sin }
+
+/-- `tan(radians(deg))`: the `tanT` of the model input (`Props/C20.multiplier_evaluates` ties it to the anchored
+source expressions `Gen.C20.multCpu` / `multGpu`, whose values the driver reports next to the model's multiplier) -/
+def tanOfDeg (deg : Float) : Float := floatTrig.tan (floatTrig.radians deg)
+
+def optBits : Option Float → Json
+  | some x => (bitsOfFloat x : Json)
+  | none => Json.null
 
 def natList (a : Array Json) : Option (List Nat) := a.toList.mapM (fun j => j.getNat?.toOption)
 
@@ -23,13 +33,6 @@ def parsePairs (a : Array Json) : Option (List (Nat × Nat)) :=
 
 def candJson (i : Input Float) (c : Cand Float) : Json :=
   Json.arr #[(c.s : Json), (c.t : Json), (bitsOfFloat c.d : Json), (bitsOfFloat (thickness i c) : Json)]
-
-def maxPerSource (cs : List (Cand Float)) : Nat :=
-  -- candidates of one source are contiguous in `cands`
-  let rec go : List (Cand Float) → Nat → Nat → Nat → Nat
-    | [], _, run, best => max run best
-    | c :: rest, cur, run, best => if c.s == cur then go rest cur (run + 1) best else go rest c.s 1 (max run best)
-  go cs 0 0 0
 
 def checkJson (i : Input Float) (strict : Bool) (out : List (Nat × Nat)) : Json :=
   let cs := i.cands Float.sqrt strict
@@ -65,15 +68,20 @@ def handle (j : Json) : Json :=
     let i : Input Float := { pts := mkPts 0 pts m1 m2, voxel := floatOfBits vx, maxNm := floatOfBits mx, tanT := tanT, rev := rev != 0 }
     match op with
     | "all" =>
+      -- the kernels' buffer holds `cap` candidates per source (scan order = index order of the targets): modelled as it is
+      let cap := (getNat? j "cap").getD 25
       let csN := i.cands Float.sqrt false
-      let csS := i.cands Float.sqrt true
+      let csS := i.candsCapped Float.sqrt true cap
       let mN := measure Float.sqrt i false
-      let mS := measure Float.sqrt i true
+      let mS := measureCapped Float.sqrt i true cap
       let base : List (String × Json) :=
         [("tan", (bitsOfFloat tanT : Json)), ("mult", (bitsOfFloat (i.params false).m : Json)),
+         -- the multiplier expressions extracted from the source (CPU scalar / GPU launch argument), evaluated at this angle
+         ("mult_src_cpu", optBits (Gen.C20.multCpu.eval floatTrig deg)), ("mult_src_gpu", optBits (Gen.C20.multGpu.eval floatTrig deg)),
          ("radius", (bitsOfFloat (i.params false).r : Json)),
          ("n_sources", (i.sources.length : Json)), ("n_targets", (i.targets.length : Json)),
-         ("n_cands", (csN.length : Json)), ("max_per_source", (maxPerSource csN : Json)),
+         ("n_cands", (csN.length : Json)), ("max_per_source", (i.maxRow Float.sqrt false : Json)),
+         ("max_per_source_strict", (i.maxRow Float.sqrt true : Json)),
          ("pairs", Json.arr (mN.map (candJson i)).toArray),
          ("pairs_strict", Json.arr (mS.map (candJson i)).toArray),
          ("cands_strict", Json.arr (csS.map (fun c => Json.arr #[(c.s : Json), (c.t : Json), (bitsOfFloat c.d : Json)])).toArray)]
